@@ -8,6 +8,6 @@ for id in $ids; do ( ./check $id ${1:+--tier $1} > $tmp/$id.out 2>&1; echo $? > 
   while [ $(jobs -r | wc -l) -ge 6 ]; do sleep 0.2; done
 done
 wait
-for id in $ids; do r=$(cat $tmp/$id.rc); echo "$id exit=$r $(tail -1 $tmp/$id.out)"; [ "$r" = 0 ] || { rc=1; grep -v "^RULE.*ok$" $tmp/$id.out | head -8; }; done
+for id in $ids; do r=$(cat $tmp/$id.rc); echo "$id exit=$r $(tail -1 $tmp/$id.out)"; [ "$r" = 0 ] || { rc=1; grep -v "^RULE.* ok$" $tmp/$id.out | head -8; }; done
 rm -rf $tmp
 exit $rc
